@@ -310,6 +310,33 @@ def judge_pairs(chk):
                              % (chk.ftext(case["formulas"][0]), chk.ftext(chk.cases[other]["formulas"][0]))))
 
 
+def gen_C03_big(chk):
+    """result sets of more than a thousand BDD nodes: a closed sub-formula first below a quantifier
+    restricted to a domain, whose variable it does not mention, then outside (one formula and a second
+    spelling with the sub-formula precomputed), by BDD equality, unit membership and independence of
+    the spare variables; a ring of 6 variables with unknown two-input functions (24 parameters)"""
+    from .shellprops import add_shell
+    n = 6
+    vs = ["v%d" % i for i in range(n)]
+    net = ""
+    for i in range(n):
+        net += "%s -? %s\n%s -? %s\n" % (vs[i - 1], vs[i], vs[i - 2], vs[i])
+    R = "AG (v0 => AF (v3 | EF (v5 & ~v1)))"
+    R2 = "EF (v2 & AX v4)"
+    dom = "v0 & ~v1 & ~v2 & ~v3"
+    pairs = []
+    for r, lab in ((R, "r"), (R2, "r2")):
+        pairs += [("(3{x} in %%d%%: @{x}: EF (%s)) & (%s)" % (r, r), "(3{x} in %%d%%: @{x}: EF %%%s%%) & %%%s%%" % (lab, lab)),
+                  ("(V{x} in %%d%%: @{x}: (%s)) | ~(%s)" % (r, r), "(V{x} in %%d%%: @{x}: %%%s%%) | ~%%%s%%" % (lab, lab)),
+                  ("(!{x} in %%d%%: (%s)) | (3{y}: @{y}: (v4 & (%s)))" % (r, r), "(!{x} in %%d%%: %%%s%%) | (3{y}: @{y}: (v4 & %%%s%%))" % (lab, lab))]
+    fs = []
+    for x, y in pairs:
+        fs += [x, y]
+    ctx = ",".join("%s=f%s" % (gen.hx(l), gen.hx(f)) for l, f in (("d", dom), ("r", R), ("r2", R2)))
+    add_shell(chk, "EQV", ["1", "A:" + gen.hx(net), ctx, ",".join(gen.hx(f) for f in fs)], tag="big-foreign-scope",
+              meta={"net": "ring6"})
+
+
 # ------------------------------------------------------------------ C03
 def gen_C03(chk):
     rng = chk.rng
@@ -626,7 +653,7 @@ def domain_reuse_batch(rng, props, labels=("d", "e2", "p")):
 def gen_C04_domains(chk):
     """batches of formulae that reuse domain labels under changing outer restrictions (own PRNG stream)"""
     import random as _random
-    rng = _random.Random("C04-domains-%s" % chk.seed)
+    rng = _random.Random("%s-domains-%s" % (chk.prop, chk.seed))
     nets = [(nm, gen.CURATED[nm]) for nm in ["N02", "N05", "N06", "N09", "N21"]]
     for i in range(cnt(chk, 3, 6)):
         net = gen.random_network(rng, max_n=3, max_bits=6)
